@@ -554,6 +554,10 @@ SAFE_NATIVE = {
     range, divmod, abs, repr, hasattr, getattr, setattr, id, callable, dict, set, frozenset, print, hash,
     slice, format, issubclass, object, super, vars, delattr, memoryview.tobytes,
 }
+import heapq as _heapq
+import itertools as _itertools
+SAFE_NATIVE |= {_heapq.heappush, _heapq.heappop, _heapq.heapify, _heapq.heapreplace, _heapq.heappushpop,
+                _itertools.chain, _itertools.islice}
 SAFE_SELF_TYPES = (list, dict, tuple, set, frozenset, type(None), types.GeneratorType)
 
 _BUILTIN_KINDS = (types.BuiltinFunctionType, types.BuiltinMethodType, types.MethodDescriptorType,
